@@ -367,6 +367,21 @@ def _ufpca_amplitude_cases(rng: Rng, tier):
                    dk=f"amplitude-2^{e}", t=Svec(t), X=Smat([[x * sc for x in r] for r in X]), scale=rs(sc))
 
 
+def _ufpca_noisy_fraction_cases(rng: Rng, tier):
+    """Fractions of explained variance on NOISY curves (smooth signal + rough noise of comparable size), both
+    methods: on the Gram route the noise variance is subtracted before the fraction is resolved."""
+    for i in range(40 if tier == "thorough" else 8):
+        n, m = rng.randint(5, 12), rng.randint(8, 16)
+        t = grid(rng, m)
+        sig, _ = curves(rng, n, t, "lowrank", rank=2)
+        noise, _ = curves(rng, n, t, "rough")
+        a = rng.choice([Fraction(1, 4), Fraction(1, 2), Fraction(1)])
+        X = [[x + a * e / 4 for x, e in zip(r1, r2)] for r1, r2 in zip(sig, noise)]
+        yield dict(kind="ufpca", method=["inner-product", "inner-product", "covariance"][i % 3], normalize=False,
+                   sel=["frac", rs(rng.choice([Fraction(1, 2), Fraction(7, 10), Fraction(9, 10), Fraction(19, 20)]))],
+                   dk="noisy-fraction", t=Svec(t), X=Smat(X))
+
+
 def _ufpca_large_cases(rng: Rng, tier):
     """Many observations (Gram route) / many grid points (covariance route) around fast-path thresholds,
     the other dimension tiny; a few integer components; rough data so that the noise variance is positive."""
@@ -402,7 +417,14 @@ def _mfpca_cases(rng: Rng, tier):
         comps = multi_lowrank(rng, P, rng.randint(8, 20))
         case = dict(kind="mfpca", method="covariance", sel=rng.choice([["int", 2], ["int", 3], ["int", 4], ["frac", "9/10"]]),
                     comps=comps, uni=[rng.choice([2, 3]) for _ in range(P)], dk=f"multi-lowrank-P{P}")
-        if k % 2 == 1:
+        if k % 4 == 2:
+            # expansions that OMIT every optional key (defaults): rank-5 components so that the default 5 univariate
+            # components are genuine
+            case["comps"] = multi_lowrank(rng, P, rng.randint(9, 16), R=5)
+            case["uni_keys"] = "omitted"
+            case["uni_method"] = rng.choice(["UFPCA", "UFPCA", "PSplines"])
+            case["dk"] += "-defaults"
+        elif k % 2 == 1:
             # non-orthonormal univariate bases: P-spline expansions (B ≠ I, so B·Q ≠ Q·B)
             case["uni_method"] = "PSplines"
             case["uni"] = [rng.choice([3, 4, 5]) for _ in range(P)]   # numbers of segments
@@ -414,6 +436,7 @@ def gen_cases(rng: Rng, tier):
     yield from _helper_cases(rng, tier)
     yield from _ufpca_cases(rng, tier)
     yield from _ufpca_amplitude_cases(rng, tier)
+    yield from _ufpca_noisy_fraction_cases(rng, tier)
     yield from _ufpca_large_cases(rng, tier)
     yield from _mfpca_cases(rng, tier)
 
@@ -483,7 +506,10 @@ def _fit(case, sel_py):
             mfd = _multi(case)
             if case["method"] == "covariance":
                 uni = case.get("uni") or [3] * len(case["comps"])
-                if case.get("uni_method") == "PSplines":
+                if case.get("uni_keys") == "omitted":
+                    # only the method is given: every other key (n_components, n_segments, penalty, …) at its default
+                    exps = [dict(method=case.get("uni_method", "UFPCA")) for _ in case["comps"]]
+                elif case.get("uni_method") == "PSplines":
                     exps = [dict(method="PSplines", penalty=1.0, n_segments=k) for k in uni]
                 else:
                     exps = [dict(method="UFPCA", n_components=k) for k in uni]
@@ -616,7 +642,7 @@ def run_impl(case):
             except Exception as e:  # noqa: BLE001
                 out["fresh_error"] = err_class(e)
     # the full decomposition, for the prefix / leading clauses
-    if case["sel"][0] != "all" and not (case["kind"] == "mfpca" and case["method"] == "covariance"):
+    if case["sel"][0] != "all":
         try:
             est_full, _ = _fit(case, None)
             out["full_vals"] = [float(x) for x in np.asarray(est_full.eigenvalues)]
@@ -624,6 +650,13 @@ def run_impl(case):
             out["full_error"] = err_class(e)
     elif case["sel"][0] == "all":
         out["full_vals"] = list(out["vals"])
+    # the same data with one more component requested (prefix clause ACROSS requests)
+    if case["sel"][0] == "int" and int(case["sel"][1]) >= 1:
+        try:
+            est_next, _ = _fit(case, int(case["sel"][1]) + 1)
+            out["next_vals"] = [float(x) for x in np.asarray(est_next.eigenvalues)]
+        except Exception as e:  # noqa: BLE001
+            out["next_error"] = err_class(e)
     return out
 
 
@@ -783,6 +816,16 @@ def oracle(case, impl):
             fv = impl["full_vecs"][:k]
             if len(fv) != len(impl["vecs"]) or any(not np.allclose(a, b, rtol=0, atol=1e-12) for a, b in zip(impl["vecs"], fv)):
                 bad("prefix", "the reported vectors are not the first columns of the full decomposition")
+        if sel[0] == "frac" and 0 < float(F(sel[1])) < 1 and sum(full) > 0 and all(x == x for x in full):
+            # the count chosen by a fraction is the one its rule gives on the n_components=None decomposition
+            # (cumulated shares in the reported order; independent of the sorting defect)
+            p = float(F(sel[1]))
+            cumf = np.cumsum(full) / sum(full)
+            if np.abs(cumf - p).min() > 1e-9:
+                wantf = int(np.sum(cumf < p)) + 1
+                if k != wantf:
+                    vs.append(dict(clause="fraction_count", entry=entry, causes=[],
+                                   msg=f"fraction {p}: {k} components kept, but the cumulated shares of the full decomposition {[round(float(c), 4) for c in cumf[:6]]} ask for {wantf}"))
         srt = sorted(full, reverse=True)
         if sel[0] == "int":
             want = int(sel[1])
@@ -799,6 +842,11 @@ def oracle(case, impl):
                     want = int(np.sum(cum < p)) + 1
                     if k != want or any(abs(a - b) > 1e-9 * lam_max for a, b in zip(vals, srt[:k])):
                         bad("fraction", f"fraction {p}: kept {vals[:6]} but the smallest leading set reaching it is {srt[:want][:6]}")
+    nxt = impl.get("next_vals")
+    if nxt is not None and sel[0] == "int":
+        k = len(vals)
+        if len(nxt) < k or any(abs(a - b) > 1e-9 * max(lam_max, max([abs(x) for x in nxt] + [0.0])) for a, b in zip(vals, nxt[:k])):
+            bad("prefix", f"the {k} values for n_components={sel[1]} {vals[:5]} are not the first {k} of the values for n_components={int(sel[1]) + 1} {nxt[:6]}")
     # pairing: each returned pair solves the eigenproblem it came from
     if case["kind"] == "helper" and impl.get("vecs"):
         A = np.array(case["A"], dtype=float)
